@@ -2,8 +2,8 @@
 """Shared build steps for /verif/bin/check and /verif/bin/setup."""
 import fcntl, hashlib, json, os, re, subprocess, sys, time
 
-VERIF = "/verif"
-REPO = "/repo"
+VERIF = os.environ.get("VERIF_ROOT", "/verif")   # overridable for self-tests on a scratch copy
+REPO = os.environ.get("REPO_ROOT", "/repo")
 BUILD = VERIF + "/build"
 COQ = VERIF + "/coq"
 GOENV = dict(os.environ, GOFLAGS="-mod=mod", GOPROXY="off", GOSUMDB="off", GOTOOLCHAIN="local",
